@@ -20,4 +20,21 @@ theorem no_crossed_case : ∀ r ∈ dispatch,
 /-- reset_integrator resets every family that has state and selects the default integrator (IAS15 = 0) -/
 theorem reset_complete : (∀ r ∈ dispatch, r.2.2.1 ≠ "none" → r.2.2.1 ≠ "leapfrog" → expected r.2.2.1 "reset" ∈ dispatchResetCalls) ∧
     dispatchResetIntegrator = 0 ∧ dispatchResetCalls.Nodup := by decide +kernel
+
+/-- sub-steps tile an interval: each starts where the previous one ended -/
+def contiguous : List (Rat × Rat) → Bool
+  | (a, d) :: (b, e) :: r => (a + d == b) && contiguous ((b, e) :: r)
+  | _ => true
+
+def absR (x : Rat) : Rat := if x < 0 then -x else x
+
+/-- **user ODEs carried by a non-BS integrator are advanced over exactly the step that was just done**: the sub-steps passed to
+    `reb_integrator_bs_step` start at `t − dt_last_done` (not at `t`, and not `t − r->dt`: `r->dt` already is the size proposed for
+    the next step of an adaptive integrator), are contiguous, sum to `dt_last_done`, have the sign of `dt_last_done`, are at most
+    `|dt_proposed|` long, and `r->t` is restored afterwards -/
+theorem ode_loop_interval : odeLoop.length = 5 ∧ ∀ e ∈ odeLoop,
+    (e.2.1.head?.map (·.1)) = some (e.1.1 - e.1.2.2.1) ∧ contiguous e.2.1 = true ∧
+    (e.2.1.map (·.2)).foldl (· + ·) 0 = e.1.2.2.1 ∧ e.2.2 = e.1.1 ∧
+    (∀ c ∈ e.2.1, (0 < c.2) = (0 < e.1.2.2.1) ∧ (e.1.2.2.2 = 0 ∨ absR c.2 ≤ absR e.1.2.2.2)) ∧
+    (e.1.2.2.2 = 0 → e.2.1.length = 1) := by decide +kernel
 end RV.C01.Dispatch
